@@ -41,6 +41,11 @@ func opFromLabel(l string) (Op, bool) {
 			return a, true
 		}
 	}
+	for _, a := range meOps() {
+		if a.M.Label == l {
+			return a, true
+		}
+	}
 	switch {
 	case strings.HasPrefix(l, "V:"):
 		return raw(l[2:]), true
